@@ -872,9 +872,9 @@ func Spec() *mon.Spec {
 			"database and journal live on tmpfs (/dev/shm): fsync is cheap there, but the calls are still made and traced",
 		},
 		Phases: []mon.Phase{
-			{Name: "inject", Quick: 14 * chunks, Thorough: 60 * chunks, Run: runInject, Batch: 1, Timeout: 600 * time.Second},
-			{Name: "sigkill", Quick: 14, Thorough: 60, Run: runSigkill, Batch: 1, Timeout: 600 * time.Second},
-			{Name: "torn", Quick: 2, Thorough: 8, Run: runTorn, Batch: 1, Timeout: 600 * time.Second},
+			{Name: "inject", Quick: 14 * chunks, Thorough: 28 * chunks, Run: runInject, Batch: 1, Timeout: 600 * time.Second},
+			{Name: "sigkill", Quick: 14, Thorough: 28, Run: runSigkill, Batch: 1, Timeout: 600 * time.Second},
+			{Name: "torn", Quick: 2, Thorough: 4, Run: runTorn, Batch: 1, Timeout: 600 * time.Second},
 		},
 		Floors: map[string]int{
 			"crashes": 300, "points_enumerated_pwrite64": 350, "points_enumerated_fdatasync": 250, "points_executed_pwrite64": 100, "points_executed_fdatasync": 100,
